@@ -8,8 +8,11 @@
 (P) per-task counters on the implementation's trace: Lean monitors C02_at_most_once / C02_inside_closure /
     C02_all_processed, cross-checked by runlib.py_monitor_c02.  A crash or hang of the runner on an acyclic graph counts
     as "not all processed".
-Open finding registered here: dup-selection-truncates (`doit a a b` silently drops b).
+Found by this check and fixed upstream since (fixed: line in findings/known-findings.txt): dup-selection-truncates
+(`doit a a b` silently dropped b); seeds corpus/C02/dup-selection*.json, seeded/revert-F-C02-dupsel.
 """
+import time
+
 import common
 import runlib
 
@@ -32,35 +35,42 @@ META = {
                 'doit/runner.py::Runner.run_tasks', 'doit/runner.py::Runner.run_all',
                 'doit/runner.py::MRunner.get_next_job', 'doit/runner.py::MRunner._run_start_processes',
                 'doit/runner.py::MRunner.run_tasks', 'doit/runner.py::MRunner.execute_task_subprocess'],
-    'technique': 'Lean 4 invariant proofs over a small-step model of dispatcher + runners (all schedules) '
-                 '+ trace-acceptance correspondence against the real doit under a deterministic thread scheduler and '
-                 'token-forced multiprocessing runs',
+    'technique': ('Lean 4 invariant proofs (Inv1 dispatcher, Inv2 runner discipline + event order, Inv3 counting) over '
+                  'a small-step transition system of TaskDispatcher + Runner/MRunner/MThreadRunner, for all schedules; '
+                  'trace-acceptance correspondence against the real doit (serial, real MThreadRunner under a '
+                  'deterministic scheduler incl. exhaustive completion orders of all small DAGs, real multiprocessing '
+                  'with token-forced completion order); Lean monitor on every implementation trace, Python reference '
+                  'monitor as cross-check '),
     'design_ref': '§5 C02, §4 M1, §6.3, §6.4',
-    'level_text': 'Machine-checked: in every reachable state of the run model (serial, thread, process; any number of '
-                  'workers; any interleaving) every task starts at most once and gets at most one terminal report, only '
-                  'members of the closure of the selection start or are reported, and when the dispatcher finishes every '
-                  'member of the closure has exactly one terminal report.  The model is tied to doit/control.py and doit/runner.py on every '
-                  'run: the real doit executes generated DAGs (all edge kinds, groups, shared deps, failures, ignores, '
-                  'up-to-date tasks, --continue/--always) and each observed event list must be accepted by the model; the '
-                  'property statement is evaluated on each observed trace by the Lean monitor and a Python reference monitor.',
-    'level_note': 'Trusted: Lean kernel; doitdrv; the Python harness (generator, recording reporter, deterministic '
-                  'scheduler that replaces MThreadRunner.Queue/Child, token controller for the process runner).  '
-                  'getargs / result_dep / target->file_dep are reduced to setup / task_dep edges by the harness\' own '
-                  'expansion (runlib.expand), checked against doit by the correspondence itself.  Monitor: Lean (driver) '
-                  'with a Python cross-check.',
+    'level_text': ('Machine-checked (C02_at_most_once_serial, C02_at_most_once_parallel, C02_job_accounting): in every '
+                  'reachable state of the run model -- every graph, oracle, set-iteration order, worker interleaving at '
+                  "queue-operation granularity, every numProcess -- each task's actions start at most once and it gets "
+                  'at most one terminal report, and the parallel job accounting (free_proc / proc_count / jobs in '
+                  'flight) never hands a node out twice.  C02_inside_closure and C02_all_processed are checked by the '
+                  'monitor on every implementation trace (not yet theorems).  The model is tied to doit on every run by '
+                  'trace acceptance of the real doit on generated DAGs weighted towards shared dependencies, groups, '
+                  'shared setup-tasks and repeated selections; a crash or hang of the runner on an acyclic graph counts '
+                  'as a violation. '),
+    'level_note': ('Trusted: as C01.  all_processed / inside_closure: monitor-only (Lean monitor + Python cross-check), '
+                  "stated over the closure of the USER's selection.  Open finding dup-selection-truncates (a repeated "
+                  'task name makes doit drop the rest of the command line) is recognised by a specific signature and '
+                  'reported as KNOWN-FINDING; for the M1 correspondence the model is given the selection the runner '
+                  'really received (reporter.initialize). '),
     'rule': 'random DAGs of 3-9 tasks (hidden topological order, shuffled definition order; edge kinds task_dep, setup, '
             'calc_dep (+delivered deps), file_dep->target, getargs, result_dep; groups; shared deps), oracle per task '
             '(run/up-to-date/error, ignored, ok/failed/error, teardown), flags, selection all/names/targets, runner '
             'serial | thread k=1..4 x schedule policy | process k=2,3; non-trivial = has a dependency edge and at least '
             'one task reported; distinct = distinct rendered case + schedule',
-    'assumptions': ['actions touch only their own targets (granularity assumption of M1 for thread mode)',
-                    'process-mode runs are sampled (real OS scheduling; completion order forced, pick-up order not)'],
+    'assumptions': ['actions touch only their own targets (granularity assumption of M1 for thread mode: one transition = one thread '
+                    'running from one queue operation to the next)',
+                    'process-mode runs are sampled (real OS scheduling; completion order forced by tokens, pick-up order not)',
+                    'up-to-date status is produced by uptodate=[True] on a fresh DB (the status computation itself is M2)'],
     'trusted': ['deterministic thread scheduler and token controller of harness/runlib.py',
                 'own dependency expansion runlib.expand (getargs/result_dep/file_dep -> edges)'],
     'models': ['M1'],
 }
 
-SIGNATURES = {'dup-selection-truncates': runlib.sig_dup_selection}
+SIGNATURES = {}     # dup-selection-truncates was fixed upstream (dcfe778); runlib.sig_dup_selection still names it in replays
 
 # generator knobs of this property: shared deps, groups, shared setup-tasks, repeated selection
 KNOBS = {'p_dup_sel': 0.3, 'p_shared': 0.8, 'p_group': 0.45,
@@ -134,6 +144,11 @@ def run(ctx, scale=1.0):
     ctx.count('corpus', sum(len(b.get('cases', [])) + len(b.get('exhaustive', [])) for b in cpool + cmain))
     pool, main = plan(ctx, scale)
     batches = cpool + exhaustive_batches(ctx) + pool
+    # the correspondence work must fit the budget even on a loaded machine: generated cases that have not started
+    # when 80% of what is left of the budget is used are skipped and counted (not_run_budget_exhausted)
+    deadline = time.time() + max(10.0, 0.8 * ctx.time_left())
+    for b in batches + cmain + main:
+        b['deadline'] = deadline
     for st in common.pmap(runlib.eval_batch, batches):
         st.merge_into(ctx)
     # process-mode runs fork real worker processes: not possible inside the (daemonic) pool workers
